@@ -445,7 +445,9 @@ class C15(HttpProp):
             ops += ["http@0 POST as hyph=latest:1 hyph=1 snapshot b:9"]
             # (on the wire, white space around a header value is not part of the value: the `space` spelling of
             # an id is a malformed request only when the header is handed to the application verbatim)
-            wire = [q for q in reqs if " space=" not in q]
+            # (nor can an HTTP/1.0 request break off mid-body in a way the server can tell: it has no chunked framing,
+            # and the rig sends its declared length in full)
+            wire = [q for q in reqs if " space=" not in q and not ("/1.0 " in q and " brk:" in q)]
             for j, rq in enumerate(r.sample(wire, min(len(wire), 45))):
                 rq = "http@0 " + rq[5:]
                 ops += (["dumpall", rq, "dumpall"] if j % 3 == 0 else [rq])
